@@ -53,8 +53,6 @@ import NodisVerif.Proofs.C01Trace
         `writeKey key newStr` and then write nothing) leave an empty string key behind: EXISTS 1,
         GET ""; Redis creates nothing (SETBIT -1 is an error there). APPEND k "" also creates the
         empty key, which IS what Redis does (`append_missing_get`)                  (`open_creates_key_finding`)
-    F12 GETSET on a missing key replies "" (the fresh string's empty, non-nil value), Redis nil
-                                                                                      (`getset_missing_finding`)
     F11 SET on the in-memory backend may change another key sharing the value object (`set_alias_witness`)
   (F6 "SETEX/PSETEX change the deadline before the wrong-type panic" and F9 "RENAME keeps the
    destination's old deadline" held for earlier snapshots of the model; the Go code was repaired and
@@ -369,27 +367,18 @@ theorem set_wrong_type (s : MState) (now : Int) (k v : Bytes) (keep : Bool) (v0 
   obtain ⟨h1, h2⟩ := set_wrongtype s now k v keep v0 hl ht
   exact ⟨h1, by rw [live_congr (h2 k), hl], logical_ext hs (set_sorted s now k v keep hs) h2⟩
 
-/-- GETSET: replies the old string, then GET returns the new value; the deadline is dropped.
-    For a MISSING key the reply is the empty string, not nil (F12: the key is first created with an
-    empty non-nil value, and that is what is handed back). -/
+/-- GETSET: replies the old string (nil for a missing key or a never-filled string), then GET
+    returns the new value; the deadline is dropped -/
 theorem getSet_get (s : MState) (now : Int) (k v : Bytes) (h : StringOrMissing s now k) :
-    (Api.getSet s now k v).2 =
-      .bytes (match live s now k with | some (.str o) => some o | some _ => none | none => some []) ∧
+    (Api.getSet s now k v).2 = .bytes (match live s now k with | some (.str o) => some o | _ => none) ∧
     (Api.get (Api.getSet s now k v).1 now k).2 = .bytes (some v) ∧
     liveExp (Api.getSet s now k v).1 now k = some 0 := by
   obtain ⟨h1, h2, h3⟩ := getSet_ok s now k v h
   refine ⟨?_, get_hot h2 rfl, liveExp_of_hot h2 h3⟩
   rw [h1]
-  unfold strAt
   cases hl : live s now k with
   | none => rfl
   | some v0 => cases v0 <;> rfl
-
-/-- F12 witness: GETSET on a missing key replies "" where Redis replies nil -/
-theorem getset_missing_finding :
-    live ({} : MState) 0 [107] = none ∧
-    (match (Api.getSet {} 0 [107] [1]).2 with | .bytes (some []) => true | _ => false) = true ∧
-    (Spec.Str.step [] (.getset [107] [1])).2 = .nil := by decide
 
 /-- SETNX on a missing key stores the value (no deadline) and replies true; on an existing key of
     any type it replies false and changes nothing -/
@@ -880,8 +869,7 @@ theorem sorted_invariant (s : MState) (now : Int) (k : Bytes) (hs : IndexSorted 
   `Matches`: API result ↔ Redis reply (unit↔OK, nil slice↔nil, bytes↔bulk, int↔integer,
   bool↔0/1, (n, nil error)↔integer, (_, error)↔error reply).
   `SafeRun ks cmds`: every command, at the reference state it is issued in, lies outside the
-  finding regions F4/F8/F10/F12 and the negative-offset deviations: GETSET only on an existing
-  key; SETRANGE with offset ≥ 0, offset+len an int64, growth ≤ 1 GiB, and empty data only
+  finding regions F4/F8/F10 and the negative-offset deviations: SETRANGE with offset ≥ 0, offset+len an int64, growth ≤ 1 GiB, and empty data only
   on an existing key within its length; GETBIT/SETBIT offset ≥ 0; INCRBY/DECRBY delta an int64
   (DECRBY not −2^63). GETRANGE, BITCOUNT, RENAME, SETEX/PSETEX, KEYS, TYPE are not in the
   machine (GETRANGE / BITCOUNT because of F1–F3, F5; the others involve deadlines or non-string
@@ -922,13 +910,12 @@ example : (Spec.Str.run [] [.set [97] [1, 0, 255], .append [97] [2], .get [97], 
 /-- non-vacuity: a stream touching binary values, a counter, a missing key, DEL of two names -/
 example : SafeRun [] [.set [97] [1, 0, 255], .append [97] [2], .get [97], .setrange [97] 6 [9], .incrby [110] 5,
     .decrby [110] 7, .setbit [98] 9 true, .getbit [98] 9, .mset [([97], [3]), ([99], [])], .del [[97], [122]],
-    .exists_ [[97], [99], [99]], .append [122] [], .getset [122] [7]] := by
+    .exists_ [[97], [99], [99]], .append [122] [], .getset [122] [7], .getset [120] [8]] := by
   refine ⟨trivial, trivial, trivial, ⟨by decide, by decide, by decide, Or.inl (by decide)⟩,
-    ?_, ⟨by decide, by decide⟩, ?_, ?_, trivial, trivial, trivial, trivial, ?_, trivial⟩
+    ?_, ⟨by decide, by decide⟩, ?_, ?_, trivial, trivial, trivial, trivial, trivial, trivial, trivial⟩
   · show inInt64 5 = true; decide
   · show (0 : Int) ≤ 9; decide
   · show (0 : Int) ≤ 9; decide
-  · show Keyspace.exists_ _ [122] = true; decide
 
 /-
   UNPROVED / not covered:
